@@ -266,10 +266,8 @@ func runProperty(cfg *Config) int {
 }
 
 func cleanWork(dir string) {
-	ents, _ := os.ReadDir(dir)
-	if len(ents) == 0 {
-		os.Remove(dir)
-	}
+	os.RemoveAll(dir) // counterexample queries were copied to /verif/cex by saveCex
+	os.Remove(filepath.Dir(dir))
 }
 
 func ssaHash(fn *ssa.Function) string {
@@ -287,9 +285,16 @@ func runHarness(cfg *Config, prog *ssa.Program, pkg *ssa.Package, name string, v
 	pool := &FinalPool{capS: cfg.capS, cross: cfg.cross, dir: dir, keepAll: cfg.keep}
 	sh := &Shared{prog: prog, pool: pool, harness: name, tier: cfg.tier, seed: cfg.seed, trace: cfg.trace, vpModel: vpModel,
 		globals: map[*ssa.Global]Val{}, lazyMemo: map[string]StoreEntry{}, globalHeap: map[int]Val{}, strIntern: map[string]int{}, seen: map[string]bool{},
-		unwind: 24, sliceL: 2, maxSteps: 20000000, maxPaths: 200000, reachWanted: map[string]int{},
+		unwind: 24, sliceL: 2, maxSteps: 20000000, maxPaths: 200000, reachWanted: map[string]int{}, reachSat: map[string]bool{},
 		boundsUsed: map[string]int{}, optionsUsed: map[string]bool{}, notes: map[string]bool{}}
 	sh.decls = append(sh.decls, prelude...)
+	pool.onDone = func(q *FinalQuery) {
+		if q.Kind == "reach" && q.Result == "sat" {
+			sh.mu.Lock()
+			sh.reachSat[q.Label] = true
+			sh.mu.Unlock()
+		}
+	}
 	nw := cfg.workers
 	if nw < 1 {
 		nw = 1
@@ -750,5 +755,7 @@ var prelude = []string{
 	"(declare-fun strlower (Int) Int)",
 	"(declare-fun deraddr (Int Int) Int)",
 	"(declare-fun deraddr2 (Int Int) Int)",
+	"(declare-fun deraddr_m (Int) Int)",
+	"(declare-fun deraddr_k (Int) Int)",
 	"(declare-fun fmtfloat18 (Real) Int)",
 }
